@@ -1426,7 +1426,7 @@ func coordRunCheck(t *testing.T, id string, mk func() coordOracle, rule string, 
 	defer debug.SetGCPercent(debug.SetGCPercent(coordGOGC())) // replays are allocation-heavy and short-lived
 	deadline := vh.Deadline().Add(-10 * time.Second)
 	plan := coordPlan()
-	if id == "C43" && os.Getenv("VERIF_COORD_PLAN") == "" {
+	if (id == "C43" || id == "C12" || id == "C13" || id == "C14") && os.Getenv("VERIF_COORD_PLAN") == "" {
 		// the depth bound is never reached: the canonical state space of the timing alphabet is finite and the
 		// search runs to its fixpoint (last entry of new_states_per_depth is 0)
 		d, live, issued := 40, 2, 3
